@@ -102,6 +102,18 @@ CHECKS = {
              "that the number of samples is the number of sampling times before the end.",
         design="5/C17",
         note="Runs with shortened end times and varied intervals; ties of sample and end time are inconclusive."),
+    "C19": dict(
+        technique="trace equality modulo stutter (Lockstep.tla, TLC) of recorded dump / no-dump / resumed runs + trace validation "
+                  "of the concatenated run against TraceEcmc.tla + TLC on Heap.tla's pickle round trip",
+        text="For each plan (configuration x scheduler) the real run is recorded with dumping, without the dumping tagger, and "
+             "resumed from copies of its dump files by the real jellyfysh.resume.main in fresh processes. Lockstep.tla decides "
+             "that the run with dumps equals the run without modulo the dumping events and that each resumed run equals the "
+             "suffix of the uninterrupted run record by record on float keys (commits: handler, time, out-state; samples). The "
+             "concatenation of the run up to the dump and the resumed run must be a behaviour of TraceEcmc.tla (no trashed "
+             "scheduler entry comes back, commits stay fresh, sampling stays on nominal times). Heap.tla covers the scheduler's "
+             "pickled contents including trashed entries' validity.",
+        design="5/C19",
+        note="Seeded runs; dump points are the dumping events of those runs (3-8 per plan); quick: 4 plans, thorough: 9."),
     "C05": dict(
         technique="TLA+ model checking (TLC) of Lifting.tla + spec->code replay of every model evaluation into the real lifting classes",
         text="Lifting.tla transcribes Lifting.insert/reset and the three get_active_identifier on integer rates; TLC evaluates "
